@@ -37,7 +37,7 @@ func init() {
 		Batches:     func(tier string) int { return 16 },
 		Parallel:    func(tier string) int { return 8 },
 		Require: func(tier string) map[string]int64 {
-			return map[string]int64{"scenarios": 600, "directed_runs": 200, "directed_achieved": 40, "quiescent_checks": 600, "closed_checks": 60, "shared_session_scenarios": 60, "store_faults": 40, "panics_injected": 20, "panicking_write_callbacks": 10, "failing_calls": 40, "stale_aborts": 20, "stream_polls": 60, "stream_churns": 10,
+			return map[string]int64{"scenarios": 600, "directed_runs": 200, "directed_achieved": 40, "quiescent_checks": 600, "closed_checks": 60, "shared_session_scenarios": 60, "store_faults": 40, "panics_injected": 20, "panicking_write_callbacks": 10, "failing_calls": 40, "stale_aborts": 20, "stream_polls": 60, "stream_churns": 10, "blocked_next_closed_by_peer": 30,
 				"cancelled_contexts": 60, "hook_events": 20000, "interleavings_recorded": 300}
 		},
 		WorkerTimeoutSec: func(tier string) int {
@@ -77,7 +77,7 @@ var c16Steps = []string{
 	"begin", "commit", "abort",
 	"sess.start", "sess.write", "sess.commit", "sess.abort", "sess.end", "sess.drop", "sess.index",
 	"with_txn_ok", "with_txn_err", "with_txn_panic",
-	"watch", "next", "poll", "stream.churn", "stream.close", "abort_stale",
+	"watch", "next", "next_closed_by_peer", "poll", "stream.churn", "stream.close", "abort_stale",
 	"store.fail", "store.panic", "close",
 }
 
@@ -132,7 +132,7 @@ func c16Gen(r *fw.Rand) c16Scenario {
 			case 1: // raw engine
 				st = fw.Pick(r, []string{"begin", "commit", "abort", "abort_stale", "begin", "commit", "write", "write_cancelled", "write_deadline", "write_panicking", "write_failing", "ddl_failing", "store.fail", "store.panic"})
 			case 2: // streams and close
-				st = fw.Pick(r, []string{"watch", "next", "poll", "stream.churn", "stream.close", "write", "close", "read", "with_txn_ok"})
+				st = fw.Pick(r, []string{"watch", "next", "next_closed_by_peer", "poll", "stream.churn", "stream.close", "write", "close", "read", "with_txn_ok"})
 			default:
 				st = fw.Pick(r, c16Steps)
 			}
@@ -288,6 +288,10 @@ type c16Actor struct {
 	holding atomic.Bool // owns an engine-level transaction right now
 }
 
+// unexpectedStall holds the first consumer that stayed blocked after its
+// stream was closed (per scenario; scenarios run one at a time per worker).
+var unexpectedStall = &atomic.Value{}
+
 // c16Run executes one scenario; it returns false if the worker should stop
 // (goroutines were abandoned in a deadlock).
 func c16Run(c *fw.Ctx, r *fw.Rand, sc c16Scenario) bool {
@@ -326,6 +330,8 @@ func c16Run(c *fw.Ctx, r *fw.Rand, sc c16Scenario) bool {
 		}
 	}
 	var unexpected atomic.Value // first unexpected panic
+	var lost atomic.Value       // first write transaction taken away from its holder
+	unexpectedStall = &atomic.Value{}
 	actors := make([]*c16Actor, len(sc.Actors))
 	var wg sync.WaitGroup
 	var closed atomic.Bool
@@ -342,7 +348,7 @@ func c16Run(c *fw.Ctx, r *fw.Rand, sc c16Scenario) bool {
 			sess := sessions[sc.Session[a.id]]
 			for _, st := range a.steps {
 				a.cur.Store(st)
-				c16Step(c, a, st, client, engine, store, sess, &unexpected, &closed)
+				c16Step(c, a, st, client, engine, store, sess, &unexpected, &lost, &closed)
 			}
 			// every actor cleans up what it still owns (an abandoned write
 			// must not keep the slot: the documented way is Abort / EndSession)
@@ -443,6 +449,14 @@ joined:
 	c.Count("interleavings_recorded", 1) // (the number of distinct ones is distinct_nontrivial)
 	if p := unexpected.Load(); p != nil {
 		c.Violate("panic-escaped", "a call panicked: "+p.(string), witness(nil))
+		return true
+	}
+	if p := unexpectedStall.Load(); p != nil {
+		c.Violate("stream:not-released", p.(string), witness(nil))
+		return true
+	}
+	if p := lost.Load(); p != nil {
+		c.Violate("txn:taken-away", p.(string), witness(nil))
 		return true
 	}
 	if mx := ctl.MaxHolders.Load(); mx > 1 {
@@ -554,7 +568,7 @@ func firstFrames(stack string, n int) string {
 	return strings.Join(lines, " / ")
 }
 
-func c16Step(c *fw.Ctx, a *c16Actor, st string, client lungo.IClient, engine *lungo.Engine, store *faultStore, sess lungo.ISession, unexpected *atomic.Value, closed *atomic.Bool) {
+func c16Step(c *fw.Ctx, a *c16Actor, st string, client lungo.IClient, engine *lungo.Engine, store *faultStore, sess lungo.ISession, unexpected, lost *atomic.Value, closed *atomic.Bool) {
 	expectPanic := false
 	note := func(format string, args ...interface{}) {
 		if len(a.log) < 40 {
@@ -700,6 +714,12 @@ func c16Step(c *fw.Ctx, a *c16Actor, st string, client lungo.IClient, engine *lu
 			note("err=%v", err)
 			if err != nil {
 				engine.Abort(t)
+				// the actor obtained this transaction from Begin and nobody else
+				// knows it: only a closed engine or the injected store fault may
+				// fail its commit
+				if msg := err.Error(); strings.Contains(msg, "no active transaction") || strings.Contains(msg, "transaction mismatch") {
+					lost.CompareAndSwap(nil, fmt.Sprintf("actor %d: Commit of the write transaction it holds failed with %q: the transaction was unregistered by somebody else", a.id, msg))
+				}
 			}
 		}()
 	case "abort":
@@ -799,6 +819,32 @@ func c16Step(c *fw.Ctx, a *c16Actor, st string, client lungo.IClient, engine *lu
 		c.Count("stale_aborts", 1)
 		engine.Abort(a.stale)
 		note("ok")
+	case "next_closed_by_peer":
+		// a consumer blocked in Next without deadline is released when another
+		// goroutine closes the stream (or the engine closes)
+		s, err := coll.Watch(ctx, bson.A{})
+		if err != nil {
+			note("err=%v", err)
+			return
+		}
+		parked := make(chan struct{})
+		returned := make(chan bool, 1)
+		go func() {
+			close(parked)
+			returned <- s.Next(context.Background())
+		}()
+		<-parked
+		time.Sleep(time.Duration(2+a.id) * time.Millisecond)
+		s.Close(ctx)
+		c.Count("blocked_next_closed_by_peer", 1)
+		select {
+		case ok := <-returned:
+			note("next=%v", ok)
+		case <-time.After(4 * time.Second):
+			if dump := fullDump(); strings.Contains(dump, "lungo.(*Stream).next") {
+				unexpectedStall.CompareAndSwap(nil, fmt.Sprintf("actor %d: a consumer blocked in Next is still blocked 4 s after Close of its stream returned", a.id))
+			}
+		}
 	case "poll":
 		if a.stream == nil {
 			return
